@@ -15,11 +15,14 @@ import coqlit as L
 
 ID = "C20"
 COQ_PROPERTY_FILE = "Properties/C20.v"
-COQ_DEPS = ["Common/ListX.v", "Common/ObsHash.v", "Generated/Tables.v", "Model/Viz.v", "Proofs/VizProofs.v"]
+COQ_DEPS = ["Common/ListX.v", "Common/ObsHash.v", "Common/VizTypes.v", "Generated/Tables.v", "Model/Viz.v", "Proofs/VizProofs.v",
+            "Proofs/VizBridge.v"]
 COQ_IMPORTS = "From Mesa Require Import Model.Viz."
 COQ_CASE_TYPE = "case"
 COQ_RUN = "run_case"
-TABLE_CONSTRUCTS = ["viz_collect_defaults", "viz_size_base", "viz_hex_parity"]
+TABLE_CONSTRUCTS = ["viz_collect_defaults", "viz_size_base",
+                    "viz_check_code", "viz_fixed_code", "viz_split_code", "viz_hex_center_code", "viz_mesh_code",
+                    "viz_layers_code", "viz_collect_code", "viz_scatter_code", "viz_altair_code"]
 RULE = ("histories = one space (SingleGrid, MultiGrid, HexSingleGrid, HexMultiGrid, OrthogonalMooreGrid, "
         "OrthogonalVonNeumannGrid, HexGrid, NetworkGrid, Network, legacy and experimental ContinuousSpace, VoronoiGrid; "
         "w,h <= 5) + a portrayal table over the keys size/color/marker/zorder (each optional, per agent kind) + "
